@@ -130,6 +130,8 @@ def hashtable_buckets(self):
         lens = np.asarray(keys.lengths)
     except Exception:
         return True
+    if len(flat) > 4096:
+        return True            # the probe is quadratic in effect on huge tables (it runs around every method call); small and medium tables are probed
     CTX.tick("probe:buckets", len(flat) > 0)
     try:
         rows = np.repeat(np.arange(len(lens)), lens)
